@@ -6,6 +6,11 @@ def install(world):
     for name in MODULES:
         mod = importlib.import_module(f"contracts.{name}")
         for c in mod.CONTRACTS:
+            if c.effects is None and ".LostSegmentTracker." in c.fq:
+                c.effects = set()  # a pure data structure
+            if c.effects is None and c.fq.startswith("cfdppy.handler."):
+                # C16: whatever a handler function does to the outside world goes through these channels only
+                c.effects = {"vfs", "user", "timer", "fault_cb"} | ({"seqnum"} if ".source." in c.fq else set())
             if c.key in world.contracts:
                 raise RuntimeError(f"duplicate contract {c.key}")
             world.contracts[c.key] = c
